@@ -27,7 +27,7 @@ def _lr_recordings(work):
         for toks, kind in stages.gen_inputs(g, rng, 4, 3):
             iid += 1
             text_in, lex = G.render_input(g, toks, rng, lead=" ", trail="\n")
-            ins.append({"iid": iid, "text": text_in, "lex": lex, "partial": False, "meta": {"kind": kind}})
+            ins.append({"iid": iid, "text": text_in, "lex": lex, "partial": False, "meta": {"kind": kind, "anylex": False}})
         cases.append({"id": "self:%s|pager" % name, "grammar": G.render(g), "cfg": {"algo": "lr", "tt": "pager"},
                       "meta": {"nodis": True, "plain": True}, "inputs": ins})
     pres = run.run_vdrive(work, "selftest", cases, shards=1)
